@@ -57,3 +57,26 @@ PROPS = {
             "floors": {"quick": {"distinct_nontrivial": 30, "consist_steps.accepted": 20000, "obs.battery_first": 2000},
                        "thorough": {"distinct_nontrivial": 1500, "consist_steps.accepted": 1000000}}},
 }
+
+PATH_NOTE = ("Trusted: the harness's reference models (harness/src/mon/path.rs: own speed_params gate, own cover computation, atan2 heading change, cumulative walk). "
+             "Assumed: generator family of DESIGN.md section 3, each network accepted by the crate's validation; positive speeds; |grade| <= 2.5 %.")
+PROPS.update({
+    "C02": {"level": "exploration",
+            "technique": "runtime monitor with reference model: enforced step function from PathTpc::speed_points() vs reference min(train max, covering posted restrictions) built from the network, compared exactly at all breakpoints+midpoints, across extension schedules",
+            "level_text": "For every generated route/train/extension schedule the pointwise claim enforced(x) <= posted(x) is decided exactly (both functions are piecewise constant; all breakpoints and midpoints are evaluated); held on all observed routes.",
+            "level_note": PATH_NOTE,
+            "floors": {"quick": {"distinct_nontrivial": 500, "obs.points_compared": 200000, "obs.routes": 3000},
+                       "thorough": {"distinct_nontrivial": 50000, "obs.routes": 300000}}},
+    "C13": {"level": "exploration",
+            "technique": "runtime monitor with reference model: equality of the enforced profile with the reference tightest-restriction function at all breakpoints+midpoints, plus canonical-form invariants on speed_points()",
+            "level_text": "Same executions and reference as C02 with the stricter oracle enforced(x) == tightest(x) and canonical form; held on all observed routes.",
+            "level_note": PATH_NOTE,
+            "floors": {"quick": {"distinct_nontrivial": 500, "obs.points_compared": 200000, "obs.canonical_form": 5000},
+                       "thorough": {"distinct_nontrivial": 50000, "obs.routes": 300000}}},
+    "C06": {"level": "exploration",
+            "technique": "runtime monitor with reference model: PathTpc accessors vs an independent walk over the route's own elevation/heading/catenary points; bitwise PartialEq across all extension schedules; spliced non-contiguous routes must return Err",
+            "level_text": "Geometry of every generated path is compared with the reference at all breakpoints and midpoints (piecewise-linear => exact up to rounding), every composition of extend calls (exhaustive for short routes) is compared bitwise, and non-contiguous routes are driven through extend; held on all observed routes.",
+            "level_note": PATH_NOTE,
+            "floors": {"quick": {"distinct_nontrivial": 300, "obs.elevation_points": 200000, "obs.schedule_equality": 5000, "obs.noncontiguous_rejected_with_err": 1000},
+                       "thorough": {"distinct_nontrivial": 20000, "obs.routes": 200000}}},
+})
